@@ -11,6 +11,12 @@ Two layers:
   `[0,96)`; then one 96-byte write at offset 0; then at most one append of zeros).  The runner evaluates
   `shapeCheck` on the logs of the real packers, so these theorems apply to the real logs directly.
 * `run_*` / unprefixed: statements about the model `run r` of the packers' skeleton, for every payload `r`.
+
+A payload `r : Run` includes the failure the run is subjected to (`r.fault`: the output call at any position
+fails / the file cannot grow beyond any size; `r.inputError`: the input is damaged), so every statement below that
+quantifies over `r` quantifies over failing runs too.  `commit r` is the state after `sqfs_writer_finish` has
+attempted the final `sqfs_super_write`; "the run committed" = `(commit r).err = none` (it may still fail in the
+padding), "the run failed before it committed" = `(commit r).err ≠ none`.
 -/
 import Sqfs.Proofs.WriterStep
 import Sqfs.Spec.Writer
@@ -38,14 +44,16 @@ theorem shape_crash_safe (ops : List Op) (h : shapeCheck ops = true) : CrashSafe
 
 /-! ## The model of the packers: every payload, every crash point -/
 
-/-- **super_region_invariant.**  In a run whose `sqfs_super_init` succeeded, the first output call writes the
+/-- **super_region_invariant.**  In a run whose `sqfs_super_init` succeeded and whose first output call was carried
+out (`hne`; it is not when the injected fault hits the provisional superblock write itself), the first output call writes the
 provisional superblock and every other call up to the final superblock write stays clear of bytes `[0,96)`
 (writes at offsets ≥ 96, truncations to ≥ 96 bytes); hence at every crash point before the final superblock
 write (and after the first call) bytes `[0,96)` of the file are exactly the provisional superblock. -/
-theorem super_region_invariant (r : Run) (sup : Super) (h : superInit r.blockSize r.mtime r.compId = .ok sup) :
+theorem super_region_invariant (r : Run) (sup : Super) (h : superInit r.blockSize r.mtime r.compId = .ok sup)
+    (hne : (run r).ops ≠ []) :
     (∃ rest, (preFinal r).1.ops = .pwrite 0 sup.encode :: rest ∧ ∀ o ∈ rest, o.Safe) ∧
     ∀ k, 1 ≤ k → k < kFinal r → (image ((run r).ops.take k)).take sizeofSuper = sup.encode :=
-  Writer.super_region_invariant' r sup h
+  Writer.super_region_invariant' r sup h hne
 
 /-- what `sqfs_super_init` leaves in the fields the readers look at first -/
 theorem provisional_fields (bs mt c : Nat) (sup : Super) (h : superInit bs mt c = .ok sup) :
@@ -64,30 +72,30 @@ theorem prefix_rejected (r : Run) (k : Nat) (hk : k < kFinal r) :
     readerAccepts (image ((run r).ops.take k)) = false :=
   Writer.prefix_rejected' r k hk
 
-/-- **suffix_complete.**  For every successful run and every crash point from the final superblock write on, the
-file is the complete image up to trailing zero padding. -/
-theorem suffix_complete (r : Run) (hok : (run r).err = none) (k : Nat) (hk : kFinal r ≤ k) :
+/-- **suffix_complete.**  For every run that committed (successful, or failing only in the padding write) and every
+crash point from the final superblock write on, the file is the complete image up to trailing zero padding. -/
+theorem suffix_complete (r : Run) (hok : (commit r).err = none) (k : Nat) (hk : kFinal r ≤ k) :
     CompleteUpToPadding (image ((run r).ops.take k)) (image (run r).ops) :=
   Writer.suffix_complete' r hok k hk
 
 /-- … and it passes the readers' first stage (valid block size and compressor id, 1 … 65535 distinct ids, file
 smaller than 2^64 bytes). -/
-theorem suffix_accepted (r : Run) (v : ValidCfg r) (hok : (run r).err = none) (hsz : (preFinal r).1.size < 2 ^ 64)
+theorem suffix_accepted (r : Run) (v : ValidCfg r) (hok : (commit r).err = none) (hsz : (preFinal r).1.size < 2 ^ 64)
     (k : Nat) (hk : kFinal r ≤ k) : readerAccepts (image ((run r).ops.take k)) = true :=
   Writer.final_accepted' r v hok hsz k hk
 
-/-- **crash_safe.**  The C14 statement for the model: a successful run is crash safe at every position. -/
-theorem crash_safe (r : Run) (hok : (run r).err = none) : CrashSafe (run r).ops := by
+/-- **crash_safe.**  The C14 statement for the model: a run that committed is crash safe at every position. -/
+theorem crash_safe (r : Run) (hok : (commit r).err = none) : CrashSafe (run r).ops := by
   intro k
   by_cases hk : k < kFinal r
   · exact Or.inl (prefix_rejected r k hk)
   · exact Or.inr (suffix_complete r hok k (by omega))
 
-/-- **final_super_last.**  In a successful run every call issued before `sqfs_writer_finish` writes the superblock
+/-- **final_super_last.**  In a run that committed every call issued before `sqfs_writer_finish` writes the superblock
 (data, metadata, every table) precedes that write in the log and stays clear of `[0,96)`; after it there is at
 most one append of zeros at `bytes_used`; `bytes_used` is the length of the file at the time of the write, and
 the id table's location list (which `sqfs_id_table_read` reads first) lies below it. -/
-theorem final_super_last (r : Run) (v : ValidCfg r) (hok : (run r).err = none) (hsz : (preFinal r).1.size < 2 ^ 64) :
+theorem final_super_last (r : Run) (v : ValidCfg r) (hok : (commit r).err = none) (hsz : (preFinal r).1.size < 2 ^ 64) :
     ∃ sup rest pad, superInit r.blockSize r.mtime r.compId = .ok sup ∧
       (preFinal r).1.ops = .pwrite 0 sup.encode :: rest ∧ (∀ o ∈ rest, o.Safe) ∧
       (run r).ops = .pwrite 0 sup.encode :: (rest ++ .pwrite 0 (finalSuper r).encode :: pad) ∧
@@ -100,11 +108,74 @@ theorem final_super_last (r : Run) (v : ValidCfg r) (hok : (run r).err = none) (
   refine ⟨sup, rest, pad, hsi, hr, hsafe, hops, ?_, hB.symm, (Writer.finalSuper_ok r v hok hsz).idlist⟩
   rw [← hB]; exact hpad
 
-/-- **run_shape.**  The log of a successful model run passes `shapeCheck`, the predicate the runner evaluates on
+/-- **run_shape.**  The log of a model run that committed passes `shapeCheck`, the predicate the runner evaluates on
 the logged system calls of the real packers, and both layers agree on the position of the final superblock. -/
-theorem run_shape (r : Run) (hok : (run r).err = none) (hsz : (preFinal r).1.size < 2 ^ 64) :
+theorem run_shape (r : Run) (hok : (commit r).err = none) (hsz : (preFinal r).1.size < 2 ^ 64) :
     shapeCheck (run r).ops = true ∧ kFinalOf (run r).ops = kFinal r :=
   Writer.run_shape' r hok hsz
+
+/-! ## Failing runs: a run that is going to fail never commits -/
+
+/-- A run that ended without error committed. -/
+theorem ok_run_committed (r : Run) (hok : (run r).err = none) : (commit r).err = none :=
+  Writer.commit_ok_of_run_ok r hok
+
+/-- **failing_run_never_commits.**  For every payload `r` — that is: every script of data blocks, metadata, tables
+and xattrs, every fault position `r.fault.failAt = some j`, every size limit `r.fault.limit = some n`, every input
+failure `r.inputError = some e` — : if the run fails at any step up to and including the final superblock write,
+then no prefix of its operation sequence (no kill point, the state at exit before the cleanup `unlink` included) is
+accepted by `sqfs_super_read` + the entry of `sqfs_id_table_read`. -/
+theorem failing_run_never_commits (r : Run) (hfail : (commit r).err ≠ none) : NeverAccepted (run r).ops :=
+  fun k => Writer.failing_run_never_commits' r hfail k
+
+/-- After the first failing step no further output operation is issued: the log of a run that fails before it
+commits consists of the calls made before the failure (those of `preFinal`), and the process then unlinks the file. -/
+theorem failing_run_stops (r : Run) (hfail : (commit r).err ≠ none) :
+    (run r).ops = (preFinal r).1.ops ∧ (run r).err ≠ none ∧ unlinkAtExit r = true := by
+  have h := Writer.run_of_commit_err r hfail
+  refine ⟨Writer.failing_run_ops r hfail, by rw [h]; exact hfail, ?_⟩
+  unfold unlinkAtExit
+  rw [h]
+  cases hx : (commit r).err with
+  | none => exact absurd hx hfail
+  | some e => rfl
+
+/-- **∀ fault position.**  Whatever the payload, a fault at any output-call position up to and including the final
+superblock write (`j < kFinal r`: the provisional superblock, any data/metadata/table call, the final superblock write
+itself) makes the run fail before it commits … -/
+theorem fault_position_fails (r : Run) (j : Nat) (hf : r.fault.failAt = some j) (hj : j < kFinal r) :
+    (commit r).err ≠ none :=
+  Writer.fault_position_fails' r j hf hj
+
+/-- … hence no kill point of such a run is accepted. -/
+theorem fault_never_commits (r : Run) (j : Nat) (hf : r.fault.failAt = some j) (hj : j < kFinal r) :
+    NeverAccepted (run r).ops :=
+  failing_run_never_commits r (fault_position_fails r j hf hj)
+
+/-- A failure reported by the input side (damaged or truncated tar stream, unreadable file, failed allocation in
+`process_tarball`/`pack_files`/`fstree_post_process`) makes the run fail before it commits, whatever was packed
+before: no kill point is accepted. -/
+theorem input_error_never_commits (r : Run) (e : Nat) (h : r.inputError = some e) : NeverAccepted (run r).ops :=
+  failing_run_never_commits r (Writer.inputError_fails' r e h)
+
+/-- **every run.**  Either no kill point is accepted (the run failed before it committed), or the run committed and is
+crash safe: every kill point is rejected or leaves the complete image up to the padding (a failure *after* the
+commit can only be the padding write). -/
+theorem every_run_safe (r : Run) :
+    ((commit r).err ≠ none ∧ NeverAccepted (run r).ops) ∨ ((commit r).err = none ∧ CrashSafe (run r).ops) := by
+  by_cases h : (commit r).err = none
+  · exact Or.inr ⟨h, crash_safe r h⟩
+  · exact Or.inl ⟨h, failing_run_never_commits r h⟩
+
+/-- The log-level layer for failing runs: no crash point of a log that passes `failShapeCheck` (provisional
+superblock, then only calls that stay clear of `[0,96)`) is accepted.  The runner evaluates `failShapeCheck` on the
+logged system calls of the real packers' failing runs. -/
+theorem shape_failing_rejected (ops : List Op) (h : failShapeCheck ops = true) : NeverAccepted ops :=
+  fun k => Writer.failShape_rejected ops h k
+
+/-- … and the log of a model run that fails before it commits passes it. -/
+theorem failing_run_shape (r : Run) (hfail : (commit r).err ≠ none) : failShapeCheck (run r).ops = true :=
+  Writer.failing_run_shape' r hfail
 
 /-! Non-vacuity: a concrete well-shaped log (provisional superblock, a data block, a dedup truncate, an id
 table block + location list, final superblock, padding) whose final image the readers' first stage accepts. -/
@@ -159,7 +230,7 @@ example : ValidCfg exRun := ⟨⟨12, by decide, by decide, rfl⟩, by decide, b
 set_option maxRecDepth 100000 in
 theorem exLog_shape : shapeCheck exLog = true := by decide
 set_option maxRecDepth 100000 in
-theorem exRun_ok : (run exRun).err = none := by decide
+theorem exRun_ok : (commit exRun).err = none := by decide
 theorem exRun_valid : ValidCfg exRun := ⟨⟨12, by decide, by decide, rfl⟩, by decide, by decide⟩
 set_option maxRecDepth 100000 in
 theorem exRun_size : (preFinal exRun).1.size < 2 ^ 64 := by decide
@@ -172,12 +243,14 @@ set_option maxRecDepth 100000 in
 example := shape_suffix_complete exLog exLog_shape 6 (by decide)
 example := shape_crash_safe exLog exLog_shape
 set_option maxRecDepth 100000 in
+theorem exRun_ops_ne : (run exRun).ops ≠ [] := by decide
+set_option maxRecDepth 100000 in
 example : ∃ sup, superInit exRun.blockSize exRun.mtime exRun.compId = .ok sup := by
   have hk : (superInit exRun.blockSize exRun.mtime exRun.compId).toBool = true := by decide
   cases h : superInit exRun.blockSize exRun.mtime exRun.compId with
   | error e => rw [h] at hk; cases hk
   | ok sup =>
-    have _ := super_region_invariant exRun sup h
+    have _ := super_region_invariant exRun sup h exRun_ops_ne
     have _ := provisional_fields _ _ _ sup h
     exact ⟨sup, rfl⟩
 set_option maxRecDepth 100000 in
@@ -191,5 +264,70 @@ example := suffix_accepted exRun exRun_valid exRun_ok exRun_size 16 (by decide)
 example := crash_safe exRun exRun_ok
 example := final_super_last exRun exRun_valid exRun_ok exRun_size
 example := run_shape exRun exRun_ok exRun_size
+
+
+/-! ## Non-vacuity of the failing-run theorems: `exRun` subjected to every kind of failure -/
+
+/-- `exRun` with the output call at position `j` failing -/
+def exFaultAt (j : Nat) : Run := exRun.withFault { failAt := some j }
+/-- `exRun` on a file system on which the file cannot grow beyond `n` bytes -/
+def exLimit (n : Nat) : Run := exRun.withFault { limit := some n }
+/-- `exRun` with a tar stream that turns out to be damaged after the data blocks -/
+def exDamaged : Run := { exRun with inputError := some errCorrupted }
+
+/-- the log of a failing run of a real packer has this form: provisional superblock, compressor options, a data
+block, then nothing -/
+def exFailLog : List Op := exLog.take 3
+
+set_option maxRecDepth 100000 in
+theorem exFailLog_shape : failShapeCheck exFailLog = true := by decide
+/-- … whereas a log that goes on to the final superblock after a failure (what the seeded changes C14-c1/c2 produce)
+does not pass -/
+example : failShapeCheck (exLog.take 6) = false := by
+  set_option maxRecDepth 100000 in decide
+example := shape_failing_rejected exFailLog exFailLog_shape
+
+-- every fault position 0 … 15 = kFinal exRun - 1 (15 is the final superblock write itself) makes `exRun` fail,
+-- the log stops at the fault position, and `fault_position_fails` / `fault_never_commits` apply
+set_option maxRecDepth 100000 in
+theorem exFault_kFinal : ∀ j < 16, j < kFinal (exFaultAt j) ∧ (run (exFaultAt j)).ops.length = j := by decide
+set_option maxRecDepth 100000 in
+example : (commit (exFaultAt 0)).err = some errIo ∧ (commit (exFaultAt 11)).err = some errIo := by decide
+set_option maxRecDepth 100000 in
+example : (commit (exFaultAt 15)).err = some errIo ∧ (preFinal (exFaultAt 15)).1.err = none := by decide
+example (j : Nat) (hj : j < 16) : NeverAccepted (run (exFaultAt j)).ops :=
+  fault_never_commits (exFaultAt j) j rfl (exFault_kFinal j hj).1
+example (j : Nat) (hj : j < 16) := failing_run_stops (exFaultAt j) (fault_position_fails (exFaultAt j) j rfl (exFault_kFinal j hj).1)
+example (j : Nat) (hj : j < 16) := failing_run_shape (exFaultAt j) (fault_position_fails (exFaultAt j) j rfl (exFault_kFinal j hj).1)
+-- a fault in the padding write (position 16) comes after the commit: the run fails, but it committed, and is crash
+-- safe with the complete image (minus padding) on disk
+set_option maxRecDepth 100000 in
+theorem exFault16 : (commit (exFaultAt 16)).err = none ∧ (run (exFaultAt 16)).err = some errIo ∧
+    (run (exFaultAt 16)).ops.length = 16 := by decide
+example := crash_safe (exFaultAt 16) exFault16.1
+example := suffix_accepted (exFaultAt 16) ⟨⟨12, by decide, by decide, rfl⟩, by decide, by decide⟩ exFault16.1
+  (by set_option maxRecDepth 100000 in decide) 16 (by set_option maxRecDepth 100000 in decide)
+
+-- "disk full" at the end of the id table (157 bytes: the first xattr block cannot be written — the C14-c2 scenario):
+-- the run fails with 11 calls issued; the final superblock write would have succeeded (it does not grow the file)
+-- but is never reached
+set_option maxRecDepth 100000 in
+theorem exLimit_fails : (commit (exLimit 157)).err = some errIo := by decide
+set_option maxRecDepth 100000 in
+example : (run (exLimit 157)).ops.length = 11 := by decide
+example : NeverAccepted (run (exLimit 157)).ops := failing_run_never_commits (exLimit 157) (by rw [exLimit_fails]; simp)
+set_option maxRecDepth 100000 in
+example : (commit (exLimit 96)).err = some errIo ∧ (commit (exLimit 202)).err = some errIo := by decide
+-- disk full exactly at `bytes_used` (203): only the padding fails
+set_option maxRecDepth 100000 in
+example : (commit (exLimit 203)).err = none ∧ (run (exLimit 203)).err = some errIo := by decide
+
+-- damaged input (the C14-c1 scenario): the run stops after the data blocks (5 calls), nothing is committed
+set_option maxRecDepth 100000 in
+theorem exDamaged_ops : (run exDamaged).ops.length = 5 ∧ unlinkAtExit exDamaged = true := by decide
+example : NeverAccepted (run exDamaged).ops := input_error_never_commits exDamaged errCorrupted rfl
+example := every_run_safe exDamaged
+example := every_run_safe (exFaultAt 7)
+example := every_run_safe exRun
 
 end Sqfs.C14
